@@ -40,7 +40,23 @@ class ProtoMonitor:
         g['truth_failed'] = F       # environment truth: some script exited unsuccessfully / could not be spawned
         g['misclassified'] = F      # a script that exited unsuccessfully was treated as Skipped/Completed
         g['nnotify'] = z3.BitVecVal(0, 2)
+        if self.watch:
+            # C06 (convergence): stale.t = "something t depends on changed since t last started": its own declared inputs
+            # (a file-change notification), or a build it depends on (directly or through aggregates) finished a run.
+            # Initially true: watch mode first brings every requested target up to date.
+            for t in range(n):
+                if sysm.kinds[t] != 'aggregate':
+                    g['stale.%d' % t] = T
+                    g['lastfail.%d' % t] = F     # the most recent execution of t ended in failure
         return g
+
+    def eff_dep(self, sysm, t, d):
+        """t depends on d directly or through aggregates only."""
+        alts = [sysm.dep[t][d]]
+        for m in range(d + 1, t):
+            if sysm.kinds[m] == 'aggregate':
+                alts.append(z3.And(sysm.dep[t][m], self.eff_dep(sysm, m, d)))
+        return z3.Or(alts)
 
     def ready(self, sysm, S, g, d):
         k = sysm.kinds[d]
@@ -140,4 +156,17 @@ class ProtoMonitor:
         g2['ok_on_fail'] = okf
         g2['any_failed'] = z3.Or([g2['failed.%d' % t] for t in range(n)])
         g2['nnotify'] = sat_inc(g['nnotify'], obs.any('notify'))
+        if self.watch:
+            for t in range(n):
+                if sysm.kinds[t] == 'aggregate':
+                    continue
+                changed = [obs.get('notify', t)]
+                for d in range(t):
+                    if sysm.kinds[d] == 'build':
+                        done_d = z3.Or(obs.get('build_result', (d, 0)), obs.get('build_result', (d, 1)))
+                        changed.append(z3.And(self.eff_dep(sysm, t, d), done_d))
+                g2['stale.%d' % t] = z3.If(obs.get('spawn', t), F, z3.If(z3.Or(changed), T, g['stale.%d' % t]))
+                ok_t = z3.Or(obs.get('build_result', (t, 0)), obs.get('build_result', (t, 1)))
+                err_t = z3.Or(obs.get('build_result', (t, 3)), obs.get('emit_err', 't%d' % t), obs.get('spawn_failed', t))
+                g2['lastfail.%d' % t] = z3.If(err_t, T, z3.If(z3.Or(ok_t, obs.get('spawn', t)), F, g['lastfail.%d' % t]))
         return g2
